@@ -607,6 +607,16 @@ ApplyMutate(ents, b) ==
                  ELSE [acc EXCEPT !.outdated = TRUE]
     IN FoldSeq(one, [ents |-> ents, ok |-> TRUE, outdated |-> FALSE], b.ord)
 
+\* ServerMutateTicks: per tick the number of mutate messages processed, for the 64 ticks up to the newest
+\* tick seen; a tick 64 or more behind the newest is not tracked any more (it counts as received, no
+\* notification).  The newest tick is the largest key (0 initially).
+MtLast(mt) == LET S == (DOMAIN mt) \cup {0} IN CHOOSE x \in S : \A y \in S : y <= x
+MtConfirm(mt, T) ==
+    LET last == MtLast(mt)
+    IN IF T > last THEN [mt |-> With(Restrict(mt, {k \in DOMAIN mt : k > T - 64}), T, 1), n |-> 1]
+       ELSE IF last - T < 64 THEN [mt |-> With(mt, T, Get(mt, T, 0) + 1), n |-> Get(mt, T, 0) + 1]
+       ELSE [mt |-> mt, n |-> 0]
+
 \* processes the buffer newest first; `done` = processed messages, `acked` = those acknowledged
 ApplyMutates(cs) ==
     LET ready(b) == b.upd <= cs.updTick
@@ -614,8 +624,8 @@ ApplyMutates(cs) ==
             IF ready(b)
             THEN Then(ApplyMutate(acc.ents, b), LAMBDA r :
                  [acc EXCEPT !.ents = r.ents, !.done = Append(@, b),
-                             !.mt = IF Track THEN With(@, b.tick, Get(@, b.tick, 0) + 1) ELSE @,
-                             !.notif = IF Track /\ Get(acc.mt, b.tick, 0) + 1 = b.cnt THEN Append(@, b.tick) ELSE @,
+                             !.mt = IF Track THEN MtConfirm(@, b.tick).mt ELSE @,
+                             !.notif = IF Track /\ MtConfirm(acc.mt, b.tick).n = b.cnt THEN Append(@, b.tick) ELSE @,
                              \* only a message that was applied completely is acknowledged (unless F19)
                              !.acked = IF Impl.ackDiscarded \/ (r.ok /\ ~r.outdated) THEN Append(@, b.idx) ELSE @])
             ELSE [acc EXCEPT !.keep = Append(@, b)]
